@@ -341,3 +341,5 @@ def run(rep, tier):
     rule_arrays(rep, idx)
     # the spill/outgoing-actual discipline of C01 is also what keeps stores inside the frame
     c01.rule_frames(c01._Rename(rep, {'R5': 'R5', 'R8': 'R6'}), idx)
+    # R7: a user label that collides with a generated one sends a branch / call into the wrong code (import of C01-R4)
+    c01.rule_labels(c01._Rename(rep, {'R4': 'R7'}), idx)
